@@ -588,3 +588,37 @@ pub fn run_other_profile(ctx: &Ctx) -> Option<(i32, Option<Value>)> {
     let _ = std::fs::remove_file(&part);
     Some((code, v))
 }
+
+/// inverse of `stats_to_json` (as far as merging needs it)
+pub fn stats_from_json(v: &Value) -> Stats {
+    let mut st = Stats::new();
+    st.evaluations = v["evaluations"].as_u64().unwrap_or(0);
+    st.nt_enum = v["distinct_nontrivial"].as_u64().unwrap_or(0);
+    if let Some(m) = v["classes"].as_object() {
+        for (k, n) in m {
+            st.classes.insert(k.clone(), n.as_u64().unwrap_or(0));
+        }
+    }
+    if let Some(m) = v["skipped"].as_object() {
+        for (k, n) in m {
+            st.skipped.insert(k.clone(), n.as_u64().unwrap_or(0));
+        }
+    }
+    if let Some(m) = v["known"].as_object() {
+        for (k, n) in m {
+            st.known.insert(k.clone(), (n["excluded"].as_u64().unwrap_or(0), n["what"].as_str().unwrap_or("").to_string()));
+        }
+    }
+    if let Some(a) = v["samples"].as_array() {
+        st.samples = a.clone();
+    }
+    if let Some(a) = v["failures"].as_array() {
+        for f in a {
+            st.failures.push(Failure { case: f["case"].clone(), msg: f["msg"].as_str().unwrap_or("").to_string() });
+        }
+    }
+    if let Some(a) = v["oracle_bugs"].as_array() {
+        st.oracle_bugs = a.iter().filter_map(|x| x.as_str().map(|s| s.to_string())).collect();
+    }
+    st
+}
